@@ -51,6 +51,44 @@ static Verdict run_c08(const Case &c)
     v.classes.push_back(inner % 64 >= 56 ? "inner_len_mod64>=56" : "inner_len_mod64<56");
     return v;
   }
+  if (kind == "seq")
+  {
+    // one hmac object, several calls with different hash modes / keys / messages: every call must be right
+    int n = (int)c.geti("n", 3);
+    Sm64 r((uint64_t)strtoull(c.get("pseed", "0").c_str(), NULL, 10));
+    std::vector<wapi::HmacCall> calls;
+    std::vector<bytes> want;
+    for (int i = 0; i < n; i++)
+    {
+      wapi::HmacCall hc;
+      hc.hmode = (int)r.below(3);
+      hc.key = expand(r.next(), 16, 0);
+      size_t len = (size_t)r.below(200);
+      hc.pos = (size_t)r.below(8);
+      hc.file = expand(r.next(), hc.pos + len, 0);
+      bytes tag = ref::hmac(hc.hmode, hc.key, hc.file.data() + hc.pos, len);
+      hc.kind = (int)r.below(2);
+      if (hc.kind == 1)
+      {
+        hc.tag64 = tag;
+        bool flip = r.below(2);
+        if (flip)
+          hc.tag64[r.below(hc.tag64.size())] ^= (uint8_t)(1 << r.below(8));
+        hc.tag64.resize(64, 0x3c);
+        want.push_back(bytes(1, flip ? 0 : 1));
+      }
+      else
+        want.push_back(tag);
+      calls.push_back(hc);
+    }
+    v.nontrivial = true;
+    v.distinct = fnv64("seq" + c.get("pseed"));
+    std::vector<bytes> got = wapi::hmac_seq(calls, (int)c.geti("refill", 2));
+    for (int i = 0; i < n; i++)
+      if (got[i] != want[i])
+        return bad("call " + std::to_string(i + 1) + " of " + std::to_string(n) + " on one hmac object (" + (calls[i].kind ? "cmphmac" : "gethmac") + ", hmode " + std::to_string(calls[i].hmode) + " after hmode " + std::to_string(i ? calls[i - 1].hmode : -1) + ") gave " + hex(got[i]) + ", expected " + hex(want[i]));
+    return v;
+  }
   size_t mlen = (size_t)c.geti("len");
   size_t pos = (size_t)c.geti("pos");
   int refill = (int)c.geti("refill", 2);
@@ -128,6 +166,14 @@ static Case gen_c08()
     o.schedules = false;
     gen_enc(c, o);
     c.set("kind", "file");
+    return c;
+  }
+  if (k >= 30 && k < 45)
+  {
+    c.set("kind", "seq");
+    c.seti("n", g::range(2, 6));
+    c.set("pseed", std::to_string(g::u64()));
+    c.seti("refill", g::oneof<long>({1, 2, 4}));
     return c;
   }
   c.set("kind", k < 30 ? "write" : "msg");
